@@ -1028,3 +1028,24 @@ from .variants_wiring import BREAKING as _W_BREAKING, PRESERVING as _W_PRESERVIN
 BREAKING += _W_BREAKING
 PRESERVING += _W_PRESERVING
 UNDECIDED += _W_UNDECIDED
+
+# ---- round 6: the first-match search over a list of rule objects of a local class ----
+_ENV_ANCHOR = "    # used for imm evaluation\n    env = ChainMap(constants, labels)\n"
+_SEARCH_OLD = ("            for name, preds in criteria.items():\n                if all(pred(item, position, env) for pred in preds):\n"
+               "                    compressed = name\n                    break\n")
+_SEARCH_OBJ = ("            for rule in rules:\n                if rule.matches(item, position, env):\n"
+               "                    compressed = rule.form\n                    break\n")
+
+
+def _rule_class(checks='checks', build='[Rule(form, checks) for form, checks in criteria.items()]'):
+    return ("    class Rule:\n        def __init__(self, form, checks):\n            self.form = form\n            self.checks = " + checks + "\n\n"
+            "        def matches(self, item, position, env):\n            return all(check(item, position, env) for check in self.checks)\n\n"
+            "    rules = " + build + "\n\n" + _ENV_ANCHOR)
+
+
+PRESERVING += [
+    ('p6-rule-objects', None, [(A, _ENV_ANCHOR, _rule_class()), (A, _SEARCH_OLD, _SEARCH_OBJ)]),
+]
+BREAKING += [
+    ('c6-rule-objects-drop-name-check', ['C04'], [(A, _ENV_ANCHOR, _rule_class(checks='checks[1:]')), (A, _SEARCH_OLD, _SEARCH_OBJ)]),
+]
